@@ -13,6 +13,7 @@
      {"a":"end","w":[..]}                              compounds written after Close had returned
      {"a":"blocked","in":..}                           a call or the loop did not come back (never accepted) *)
 EXTENDS IntervalPli, Json, IOUtils
+CONSTANT Strict      \* TRUE only for the expectation probes: UnbindLocalStream does not touch streams registered by BindRemoteStream
 Trace == ndJsonDeserialize(IOEnv.VERIF_TRACE)
 KnownSeq == ndJsonDeserialize(IOEnv.VERIF_KNOWN)
 Known == {KnownSeq[i].tag : i \in DOMAIN KnownSeq}
@@ -50,7 +51,8 @@ Accept(e) ==
 StepState(e) ==
   IF e.a = "bindw" THEN BindWriterStep(x)
   ELSE IF e.a = "bind" THEN BindRemoteStep(x, e.s, e.fb)
-  ELSE IF e.a \in {"unbind", "unbindl"} THEN UnbindStep(x, e.s)
+  ELSE IF e.a = "unbind" THEN UnbindStep(x, e.s)
+  ELSE IF e.a = "unbindl" THEN (IF Strict THEN x ELSE UnbindStep(x, e.s))
   ELSE IF e.a = "force" THEN ForceStep(x, e.ss)
   ELSE IF e.a = "run" THEN RunStep(x, Took(e))
   ELSE IF e.a = "close" THEN CloseStep(x)
